@@ -1,18 +1,15 @@
 package c27
 
 import (
-	"bytes"
 	"crypto/sha256"
 	"encoding/hex"
 	"fmt"
-	"reflect"
 	"runtime/debug"
 	"sort"
 	"strings"
-	"sync"
 	"testing"
+	"time"
 
-	"github.com/spikeekips/mitum/isaac"
 	"github.com/spikeekips/mitum/util"
 	"github.com/spikeekips/mitum/util/hint"
 	"verifharness/c27/objrig"
@@ -62,11 +59,17 @@ func TestC27(t *testing.T) {
 
 	r.SetRule("case = one object built by the repository's exported constructors from PRNG(seed, generator, i), encoded with the JSON encoder " +
 		"loaded with launch.Hinters+SupportedProposalOperationFactHinters, decoded by enc.Decode (DecodeWithHint for tree nodes, which carry no _hint), re-encoded; " +
-		"distinct = (generator, structural shape of the encoding: key paths, list lengths, nested hints, null/empty leaves); non-trivial = every case (each is a full real object)")
+		"distinct = (generator, structural shape of the encoding: key paths, list lengths, nested hints, null/empty leaves); non-trivial = every case (each is a full real object). " +
+		"Boundary cases: the same generators with every draw ('all') or one draw ('site<k>') of one numeric field class replaced by a boundary value of the field's type - " +
+		"height (int64: 0, 1, 2^31+-1, 2^32+-1, 2^53-1, 2^53, 2^53+1, 2^53+3, 2^62, 2^62+1, maxint64-1, maxint64, -1, minint64), round and unsigned counts/limits (the same and 2^63, 2^63+1, maxuint64-1, maxuint64), " +
+		"signed ints, durations (the int64 edges and unit edges of the readable encoding), thresholds (51.0, 67.0, 100.0, one-decimal rounding edges, many decimals, just outside the range), " +
+		"times (epoch+-1ns, 2^31/2^32 seconds, max unix nanoseconds, year 9999, no fraction and 9-digit fractions, other zone); an object whose constructor/setter or IsValid refuses the value is not a case; " +
+		"distinct boundary case = (generator, shape, class=value@sites); the same oracle, signatures end in ':boundary=<class><kind of value>'")
 	r.Assume("signing time, proposal proposedAt, voteproof id/finishedAt and the empty-proposal fact's r come from the constructors (wall clock / uuid), not from the PRNG")
 	r.Assume("only types listed under covered_* are claimed; registered types under not_covered were never generated (no exported constructor)")
 	r.Assume("isaac.Params is node-local configuration whose encoding omits the network id by design (the loader sets it): the decoded Params gets the network id set before IsValid is compared")
 	r.Assume("tree nodes encode without _hint and are decoded with DecodeWithHint; keys and addresses encode as '<body><type>' strings and are decoded with DecodeWithFixedHintType")
+	r.Assume("boundary objects are checked only when IsValid accepts the original (boundary_objects_skipped_invalid counts the others) and are not put through the repeated-decode phase")
 	r.Assume("every hinted object is also decoded 5 times from the same bytes (3 in a row, another type, 2 more) on a per-worker encoder, unmodified and with every _hint (top level and nested) rewritten to a higher compatible version (patch+1; minor+3): all decodes must agree in type, hint, hash, validity and re-encoding; the current tree keeps the received hint version in the decoded object, so the re-encoding must equal what was received")
 	r.Assume("a panic inside IsValid counts as a validity verdict of its own ('panic:<site>'): equal before and after decoding is not a C27 violation; sites are listed in isvalid_panic_sites")
 
@@ -79,15 +82,6 @@ func TestC27(t *testing.T) {
 
 	specs := objrig.Catalog()
 	per := r.N(50, 1000)
-
-	var mu sync.Mutex
-
-	top := map[string]int{}    // hint type -> objects generated at top level
-	nested := map[string]int{} // hint type -> occurrences inside other objects
-	verdicts := map[string]int{}
-	byGroup := map[string]int{}
-	panicSites := map[string]int{}
-	invalidGen := map[string]string{} // generator expected valid but invalid: first error
 
 	// a valid encoding of another type, decoded in between repeated decodes
 	otherBytes, err := enc.Marshal(objrig.NewG(r.Rand(999)).Manifest())
@@ -105,6 +99,11 @@ func TestC27(t *testing.T) {
 			jobs = append(jobs, job{s, i})
 		}
 	}
+
+	var st stats
+	st.init()
+
+	started := time.Now()
 
 	vlib.Parallel(len(jobs), 16, func(k int) {
 		spec := specs[jobs[k].s]
@@ -127,192 +126,18 @@ func TestC27(t *testing.T) {
 			return
 		}
 
-		ht := hintType(x, spec.Hint)
-		wit["hint"] = ht
-
-		var b []byte
-
-		var err error
-
-		if r.Guard("marshal:"+ht, wit, func() { b, err = enc.Marshal(x) }) {
-			return
-		}
-
-		if err != nil {
-			r.Violation("marshal-error:"+ht, fmt.Sprintf("%s: Marshal failed: %v", spec.Name, err), wit)
-
-			return
-		}
-
-		wit["encoded"] = short(b)
-
-		tree, terr := objrig.ParseTree(b)
-		if terr != nil {
-			r.Violation("marshal-not-json:"+ht, fmt.Sprintf("%s: encoding is not JSON: %v", spec.Name, terr), wit)
-
-			return
-		}
-
-		r.Case(spec.Name + "|" + shapeHash(tree))
-
-		decode := func(b []byte) (any, error) {
-			switch {
-			case spec.FixedTypeSize > 0:
-				var s string
-				if err := enc.Unmarshal(b, &s); err != nil {
-					return nil, err
-				}
-
-				return enc.DecodeWithFixedHintType(s, spec.FixedTypeSize)
-			case !spec.Hint.IsEmpty():
-				return enc.DecodeWithHint(b, spec.Hint)
-			default:
-				return enc.Decode(b)
-			}
-		}
-
-		var y any
-
-		var derr error
-
-		if r.Guard("decode:"+ht, wit, func() { y, derr = decode(b) }) {
-			return
-		}
-
-		if derr != nil {
-			r.Violation("decode-error:"+ht, fmt.Sprintf("%s: own encoding does not decode: %v", spec.Name, derr), wit)
-
-			return
-		}
-
-		if y == nil {
-			r.Violation("decode-nil:"+ht, fmt.Sprintf("%s: own encoding decodes to nil", spec.Name), wit)
-
-			return
-		}
-
-		// same concrete type and hint
-		if tx, ty := reflect.TypeOf(x), reflect.TypeOf(y); tx != ty {
-			r.Violation("type-differs:"+ht, fmt.Sprintf("%s: encoded %v, decoded %v", spec.Name, tx, ty), wit)
-
-			return
-		}
-
-		if hx, ok := x.(hint.Hinter); ok {
-			hy, ok := y.(hint.Hinter)
-			if !ok || !hx.Hint().Equal(hy.Hint()) {
-				r.Violation("hint-differs:"+ht, fmt.Sprintf("%s: hint %v decoded as %v", spec.Name, hx.Hint(), y), wit)
-			}
-		}
-
-		// same hash
-		if hx, ok := x.(util.Hasher); ok {
-			hy := y.(util.Hasher) //nolint:forcetypeassert // same type
-			a, c := hx.Hash(), hy.Hash()
-
-			switch {
-			case a == nil && c == nil:
-			case a == nil || c == nil || !a.Equal(c):
-				r.Violation("hash-differs:"+ht, fmt.Sprintf("%s: Hash() %v decoded %v", spec.Name, a, c), wit)
-			}
-		}
-
-		if hx, ok := x.(util.HashByter); ok {
-			hy := y.(util.HashByter) //nolint:forcetypeassert // same type
-
-			var ba, bc []byte
-
-			pa := r.Guard("hashbytes:"+ht, wit, func() { ba = hx.HashBytes() })
-			pc := r.Guard("hashbytes-decoded:"+ht, wit, func() { bc = hy.HashBytes() })
-
-			if !pa && !pc && !bytes.Equal(ba, bc) {
-				r.Violation("hashbytes-differ:"+ht, fmt.Sprintf("%s: HashBytes() differ after decoding", spec.Name), wit)
-			}
-		}
-
-		// isaac.Params is node-local configuration: its encoding leaves the
-		// network id out on purpose and the loader sets it afterwards.
-		if p, ok := y.(*isaac.Params); ok {
-			_ = p.SetNetworkID(g.NetworkID)
-		}
-
-		// same validity
-		arg := []byte(g.NetworkID)
-		if spec.NilIsValidArg {
-			arg = nil
-		}
-
-		vx, dx := verdict(x, arg)
-		vy, dy := verdict(y, arg)
-
-		if vx != vy {
-			wit["isvalid_original"] = vx + " " + dx
-			wit["isvalid_decoded"] = vy + " " + dy
-			r.Violation("validity-differs:"+ht+":"+verdictClass(vx)+"->"+verdictClass(vy),
-				fmt.Sprintf("%s: IsValid %s (%s) before, %s (%s) after decoding", spec.Name, vx, dx, vy, dy), wit)
-		}
-
-		// same bytes
-		var b2 []byte
-
-		var merr error
-
-		if !r.Guard("remarshal:"+ht, wit, func() { b2, merr = enc.Marshal(y) }) {
-			switch {
-			case merr != nil:
-				r.Violation("remarshal-error:"+ht, fmt.Sprintf("%s: decoded object does not encode: %v", spec.Name, merr), wit)
-			case !bytes.Equal(b, b2):
-				where := "?"
-				if t2, err := objrig.ParseTree(b2); err == nil {
-					where = objrig.FirstDiff(tree, t2, nil)
-					if where == "" {
-						where = "(same tree, different bytes)"
-					}
-				}
-
-				wit["reencoded"] = short(b2)
-				r.Violation("reencode-differs:"+ht+":"+where,
-					fmt.Sprintf("%s: re-encoding the decoded object differs at %s", spec.Name, where), wit)
-			}
-		}
-
-		// the same bytes decoded again and again, also with compatible hint versions
-		if spec.FixedTypeSize == 0 {
-			res, nd, nv := repeated(spec, ht, b, otherBytes, g.NetworkID)
-			for _, x := range res {
-				r.Violation(x.Sig, x.What, x.Witness)
-			}
-
-			r.Count("repeated_decodes", nd)
-			r.Count("compatible_version_variants", nv)
-		}
-
-		mu.Lock()
-		top[ht]++
-		byGroup[spec.Group]++
-		verdicts[vx]++
-
-		if strings.HasPrefix(vx, "panic:") {
-			panicSites[spec.Name+" -> "+vx+": "+dx]++
-		}
-
-		if vx == "invalid" && !strings.Contains(spec.Name, "!wrong-network") {
-			if _, ok := invalidGen[spec.Name]; !ok {
-				invalidGen[spec.Name] = dx
-			}
-		}
-
-		for _, h := range objrig.Hints(tree) {
-			if ph, err := hint.ParseHint(h); err == nil {
-				nested[ph.Type().String()]++
-			}
-		}
-		mu.Unlock()
-
-		if jobs[k].i == 0 && (jobs[k].s%23 == 0) {
-			r.Sample(map[string]any{"generator": spec.Name, "hint": ht, "isvalid": vx, "bytes": len(b), "encoded": short(b)})
-		}
+		checkObject(r, enc, &st, spec, g, x, wit, nil, otherBytes, jobs[k].i == 0 && (jobs[k].s%29 == 0))
 	})
+
+	ordinaryDone := time.Now()
+
+	boundaryPhase(r, enc, &st, specs)
+
+	// cost of the two phases (evidence only; no verdict depends on it)
+	r.Set("wall_s_ordinary_phase", ordinaryDone.Sub(started).Round(100*time.Millisecond).Seconds())
+	r.Set("wall_s_boundary_phase", time.Since(ordinaryDone).Round(100*time.Millisecond).Seconds())
+
+	top, nested, verdicts, byGroup, panicSites, invalidGen := st.top, st.nested, st.verdicts, st.byGroup, st.panicSites, st.invalidGen
 
 	// coverage of the registered hint types
 	var coveredTop, coveredNested, notCovered []string
